@@ -376,7 +376,8 @@ func (e *CBK) Read(r io.Reader, b []byte) (int, error) {
 	}
 	if e.pos >= e.total {
 		if o, err := e.readInput(r); err != nil && (err != io.EOF || o == 0) {
-			return o, err
+			// Nothing was copied into b yet: 'o' counts bytes taken from r.
+			return 0, err
 		}
 	}
 	var n int
